@@ -180,6 +180,15 @@ func runC13(c *mon.Ctx) {
 					return
 				}
 			}
+			if k%3 == 1 {
+				// signed before with the key the origin held under this key ID until it rotated it (ninth seeding round,
+				// C13-S): signing again replaces that signature, the request leaves with the signature of the key in use
+				if err := fr.Sign(spec.ServerName(origin), gmsl.KeyID(keyID), otherID.Priv); err != nil {
+					c.Failf("sign:error", "Sign: %v", err)
+					return
+				}
+				c.Count("requests_signed_again_with_a_new_key_under_the_same_key_id")
+			}
 			if err := fr.Sign(spec.ServerName(origin), gmsl.KeyID(keyID), id.Priv); err != nil {
 				c.Failf("sign:error", "Sign: %v", err)
 				return
